@@ -2,6 +2,7 @@
 package all
 
 import (
+	_ "verifharness/props/c01"
 	_ "verifharness/props/c02"
 	_ "verifharness/props/c03"
 	_ "verifharness/props/c04"
